@@ -170,10 +170,42 @@ pub fn read<const N: usize, Ns>(reader: impl Read) -> Result<Mappings<N, Ns>> {
 }
 
 pub(crate) fn unescape(s: String) -> String {
-	s.replace("\\n", "\n")
+	let mut out = String::with_capacity(s.len());
+	let mut chars = s.chars();
+	while let Some(ch) = chars.next() {
+		if ch != '\\' {
+			out.push(ch);
+			continue;
+		}
+		match chars.next() {
+			Some('\\') => out.push('\\'),
+			Some('n') => out.push('\n'),
+			Some('r') => out.push('\r'),
+			Some('t') => out.push('\t'),
+			Some('0') => out.push('\0'),
+			// not an escape sequence of the tiny v2 format, keep it as it is
+			Some(other) => {
+				out.push('\\');
+				out.push(other);
+			},
+			None => out.push('\\'),
+		}
+	}
+	out
 }
 pub(crate) fn escape(s: &str) -> String {
-	s.replace('\n', "\\n")
+	let mut out = String::with_capacity(s.len());
+	for ch in s.chars() {
+		match ch {
+			'\\' => out.push_str("\\\\"),
+			'\n' => out.push_str("\\n"),
+			'\r' => out.push_str("\\r"),
+			'\t' => out.push_str("\\t"),
+			'\0' => out.push_str("\\0"),
+			ch => out.push(ch),
+		}
+	}
+	out
 }
 
 fn add_comment(javadoc: &mut Option<JavadocMapping>, line: TinyLine) -> Result<()> {
